@@ -484,11 +484,24 @@ def check_named_unpack_binds_names_only(repo, rep):
     writers = {f.name for f in mod.functions.values()
                if f.parent_func is None and f is not fi and
                positional_stores(f)}
+    # ... and whoever hands its context on to one of them
+    changed = True
+    while changed:
+        changed = False
+        for f in mod.functions.values():
+            if f.parent_func is None and f is not fi and \
+                    f.name not in writers and any(
+                        isinstance(c.func, ast.Name) and
+                        c.func.id in writers
+                        for c in model.calls_in(f.node)):
+                writers.add(f.name)
+                changed = True
     sites = list(positional_stores(fi))
     for c in model.calls_in(fi.node):
         if isinstance(c.func, ast.Name) and c.func.id in writers:
             sites.append(c)
     rep.floor('positional binders in system.py', len(writers), 2)
+    rep.count(positional_binders=sorted(writers))
     if not sites:
         raise AnalysisError('anchor vanished: positional stores of unpack')
     o = _names_given_oracle(names)
